@@ -36,6 +36,7 @@ type frameSigma struct {
 	Pe int  // persist function calls
 	X  byte // in dispatch frame n/y
 	K  byte // a panic was recovered in the current dispatch frame n/y
+	Es byte // the error reported to OnHandlerComplete was assigned on this (recovered) path n/y
 }
 
 func cap2(n int) int {
@@ -46,13 +47,16 @@ func cap2(n int) int {
 }
 
 func (s frameSigma) String() string {
-	return fmt.Sprintf("%c%d%d%c%d%d%d%d%d%d%d%d%d%d%d%c%c", s.Ph, cap2(s.W), cap2(s.Dn), s.L, cap2(s.H), cap2(s.S), cap2(s.E), cap2(s.I), cap2(s.Ps), cap2(s.Pc),
-		cap2(s.B[0]), cap2(s.B[1]), cap2(s.B[2]), cap2(s.B[3]), cap2(s.Pe), s.X, s.K)
+	if s.Es == 0 {
+		s.Es = 'n'
+	}
+	return fmt.Sprintf("%c%d%d%c%d%d%d%d%d%d%d%d%d%d%d%c%c%c", s.Ph, cap2(s.W), cap2(s.Dn), s.L, cap2(s.H), cap2(s.S), cap2(s.E), cap2(s.I), cap2(s.Ps), cap2(s.Pc),
+		cap2(s.B[0]), cap2(s.B[1]), cap2(s.B[2]), cap2(s.B[3]), cap2(s.Pe), s.X, s.K, s.Es)
 }
 
 func parseFrame(x string) frameSigma {
 	d := func(i int) int { return int(x[i] - '0') }
-	return frameSigma{Ph: x[0], W: d(1), Dn: d(2), L: x[3], H: d(4), S: d(5), E: d(6), I: d(7), Ps: d(8), Pc: d(9), B: [4]int{d(10), d(11), d(12), d(13)}, Pe: d(14), X: x[15], K: x[16]}
+	return frameSigma{Ph: x[0], W: d(1), Dn: d(2), L: x[3], H: d(4), S: d(5), E: d(6), I: d(7), Ps: d(8), Pc: d(9), B: [4]int{d(10), d(11), d(12), d(13)}, Pe: d(14), X: x[15], K: x[16], Es: x[17]}
 }
 
 type framesRule struct {
@@ -91,7 +95,7 @@ func (r *framesRule) isBusWG(e *Engine, fc *FrameCtx, v ssa.Value) bool {
 func (r *framesRule) OnEnter(e *Engine, st *State, fc *FrameCtx) {
 	if fc.fn == r.R.DispatchFn {
 		s := parseFrame(st.Sigma)
-		s.X, s.H, s.S, s.E, s.I, s.K = 'y', 0, 0, 0, 0, 'n'
+		s.X, s.H, s.S, s.E, s.I, s.K, s.Es = 'y', 0, 0, 0, 0, 'n', 'n'
 		if s.Ph != 's' {
 			pos := token.NoPos
 			if fc.site != nil {
@@ -162,6 +166,16 @@ func (r *framesRule) OnInstr(e *Engine, st *State, fc *FrameCtx, in ssa.Instruct
 	}
 	s := parseFrame(st.Sigma)
 	defer func() { st.Sigma = s.String() }()
+	if sto, isStore := in.(*ssa.Store); isStore && s.X == 'y' && s.K == 'y' {
+		if typeName(sto.Val.Type()) == "error" && e.neverNil(fc, sto.Val, 0) {
+			if _, isFV := sto.Addr.(*ssa.FreeVar); isFV {
+				s.Es = 'y'
+			}
+			if _, isAl := sto.Addr.(*ssa.Alloc); isAl {
+				s.Es = 'y'
+			}
+		}
+	}
 	ci, isCall := in.(ssa.CallInstruction)
 	if !isCall {
 		return false
@@ -262,6 +276,9 @@ func (r *framesRule) OnInstr(e *Engine, st *State, fc *FrameCtx, in ssa.Instruct
 			if s.X == 'y' && len(cc.Args) == 3 {
 				// error argument: non-nil exactly on the recovered branch
 				r.checkCompleteErr(e, st, fc, in, cc.Args[2], s)
+				if s.K == 'y' && s.Es != 'y' {
+					e.Report(st, in.Pos(), "dispatch-fn/obs/complete-error", "a panic was recovered on this path but the error handed to OnHandlerComplete was not assigned on it (e.g. the panic value fell through a type switch without a default): the panicking invocation is reported as successful")
+				}
 			}
 		case "OnPublishStart":
 			s.Ps++
